@@ -9,6 +9,7 @@ import (
 	"path/filepath"
 	"sync"
 	"testing/iotest"
+	"time"
 )
 
 // Reader / writer variants (round-2 strengthening). The code under test
@@ -200,4 +201,84 @@ func removeTmp() {
 func infra(err error) {
 	fmt.Fprintln(os.Stderr, "harness infrastructure failure:", err)
 	os.Exit(3)
+}
+
+// callReps: how many times the current case calls each function under test
+// on the same input (the LAST result is the one that is looked at). State a
+// call leaves behind - in its argument, in the package - then shows in the
+// result of the next. Set per case by the Run*Cases loops ("rep" of the case).
+var callReps = 1
+
+func setReps(rep int) {
+	callReps = 1
+	if rep > 1 {
+		callReps = rep
+	}
+}
+
+// repeat runs f callReps times and stops at the first error.
+func repeat(f func() error) error {
+	for r := 0; r < callReps; r++ {
+		if err := f(); err != nil {
+			return err
+		}
+	}
+	return nil
+}
+
+// Projection budget. A defect can make the code under test produce far more
+// than its input accounts for (a stale buffer of an earlier, larger case);
+// logging all of it would turn a verdict into a timeout. The run functions
+// set, per case, how much the projections log at most: always MORE than a
+// correct result can have, so a result that reaches the cap is wrong in a way
+// the specification sees (count / size law / the "cut" statement).
+const noCap = int(^uint(0) >> 1)
+
+var (
+	capRecs  = noCap // STL records logged per file, triangles per read-back mesh
+	capStmts = noCap // OBJ statements logged per text; then one "cut" statement
+	capIdx   = noCap // OBJ indices / vertices logged per read-back mesh
+)
+
+// capHit: a projection of the current case reached its cap.
+var capHit bool
+
+func resetCaps() { capRecs, capStmts, capIdx, capHit = noCap, noCap, noCap, false }
+
+// stopper ends a run early when going on cannot add anything but time: many
+// cases whose results burst the projection budget, or the time budget of the
+// run used up (the code under test has become slow by orders of magnitude).
+// The trace then ends with {"k":"stop","why":..,"done":n}; the check judges
+// the n lines before it, and treats a stop without any rejected line as an
+// infrastructure failure, never as a pass.
+type stopper struct {
+	start  time.Time
+	budget time.Duration
+	over   int
+}
+
+const maxOversize = 25
+
+func newStopper(budgetSeconds int) *stopper {
+	return &stopper{start: time.Now(), budget: time.Duration(budgetSeconds) * time.Second}
+}
+
+// after is called after every case; it returns "" or why the run stops.
+func (s *stopper) after() string {
+	if capHit {
+		s.over++
+	}
+	if s.over >= maxOversize {
+		return "oversize"
+	}
+	if s.budget > 0 && time.Since(s.start) > s.budget {
+		return "slow"
+	}
+	return ""
+}
+
+type stopLine struct {
+	K    string `json:"k"`
+	Why  string `json:"why"`
+	Done int    `json:"done"`
 }
